@@ -94,7 +94,7 @@ def record_call(ptn, nu, nv, edge_seq, budget_s=5, reuse=0):
     try:
         with wrap.patched((bg.HopcroftKarp, '_HopcroftKarp__connect_unmatched_vertices', mk_bfs),
                           (bg.HopcroftKarp, '_HopcroftKarp__add_augmenting_path', mk_aug),
-                          (bg.HopcroftKarp, '__call__', mk_call)):
+                          (bg.HopcroftKarp, '__call__', mk_call), trace=tr):
             g = bg.BipartiteGraph(nu, nv, list(edge_seq))
             if reuse:
                 hk = bg.HopcroftKarp(g)
